@@ -33,6 +33,101 @@ def _tests_with_field(body, field):
     return out
 
 
+def _is_cursor_offset_load(body, operand):
+    """operand is (a copy of) the cursor's own offset: a load of ColReaderInfo.cur_block_offset, possibly
+    carried through tuple packing / unpacking and named copies.  Other definitions of the same local are
+    tolerated only if they are the constant 0 (block start after an advance) or are made on the
+    offset-addressed arm (start_offset = Some), where no shared cursor is involved at all."""
+    from .core.symexpr import expr, strip_refs, show
+    so_keys = flag_places(body, "start_offset")
+    stateless = option_edges(body, so_keys, want_none=False) if so_keys else []
+    state = {"load": False, "bad": False}
+    seen = set()
+
+    def leaf(op, at_bb, depth):
+        if depth > 10:
+            state["bad"] = True
+            return
+        o = body.resolve_copy(op)
+        if o.get("k") == "const":
+            if o.get("val") != 0:
+                state["bad"] = True
+            return
+        pl = op_place(o)
+        if pl is None:
+            state["bad"] = True
+            return
+        e = strip_refs(expr(body, o))
+        if isinstance(e, tuple) and e and e[0] == "field" and e[3] == "cur_block_offset":
+            state["load"] = True
+            return
+        flds = [x for x in pl["p"] if isinstance(x, dict) and "f" in x]
+        key = (pl["l"], tuple(x["f"] for x in flds))
+        if key in seen:
+            return
+        seen.add(key)
+        defs = body.defs.get(pl["l"], [])
+        if not defs:
+            state["bad"] = True
+            return
+        for s_, k, n in defs:
+            if any(body.edge_guards(e_, s_.bb) for e_ in stateless):
+                continue
+            if k != "assign":
+                state["bad"] = True
+                continue
+            rv = n["rv"]
+            if rv["k"] in ("use", "cast") and not flds:
+                leaf(rv["op"], s_.bb, depth + 1)
+            elif rv["k"] == "agg" and rv.get("akind") == "tuple" and len(flds) == 1 and flds[0]["f"] < len(rv["ops"]):
+                leaf(rv["ops"][flds[0]["f"]], s_.bb, depth + 1)
+            elif rv["k"] in ("use", "cast") and flds:
+                q = op_place(rv["op"])
+                if q is not None:
+                    leaf({"k": "copy", "place": {"l": q["l"], "p": q["p"] + flds}}, s_.bb, depth + 1)
+                else:
+                    state["bad"] = True
+            else:
+                state["bad"] = True
+    leaf(operand, None, 0)
+    return state["load"] and not state["bad"]
+
+
+def _exact_end_helper(facts, call_node):
+    """callee returns exactly `arg_off >= (arg_block).used`: (index of offset arg, index of block arg) or None"""
+    from .core.symexpr import expr, strip_refs
+    name = strip_generics(call_node.get("callee") or "")
+    hb = next((bb_ for nn, bb_ in facts.bodies.items() if strip_generics(nn) == name), None)
+    if hb is None or hb.j.get("derived") or str(hb.j.get("ret_ty", "")) != "bool":
+        return None
+    rets = [st for site, st in hb.assigns() if st["place"]["l"] == 0 and not st["place"]["p"]]
+    if len(rets) != 1 or rets[0]["rv"]["k"] != "bin" or rets[0]["rv"]["op"] != "Ge":
+        return None
+    ea, eb = strip_refs(expr(hb, rets[0]["rv"]["a"])), strip_refs(expr(hb, rets[0]["rv"]["b"]))
+    if ea[0] == "v" and 1 <= ea[1] <= hb.arg_count and eb[0] == "field" and eb[3] == "used":
+        base = strip_refs(eb[1])
+        if base[0] == "v" and 1 <= base[1] <= hb.arg_count:
+            return (ea[1] - 1, base[1] - 1)
+    return None
+
+
+def end_guards(body):
+    """[(true edge, offset operand)] of the tests that establish `offset >= block.used`: the comparison itself,
+    or a call of a helper that returns exactly that comparison of its arguments."""
+    out = []
+    facts = body.facts
+    for T in all_tests(body):
+        if T.kind == "cmp" and T.op == "Ge":
+            pb = op_place(T.b)
+            if pb and pb["p"] and isinstance(pb["p"][-1], dict) and pb["p"][-1].get("n") == "used":
+                out.append((T.true_edge, T.a))
+        elif T.kind == "call" and T.site is not None:
+            m = _exact_end_helper(facts, T.site.node)
+            if m is not None:
+                out.append((T.true_edge, T.site.node["args"][m[0]]))
+    return out
+
+
 def exception_class(body, site, kinds):
     """Return the name of the frozen exception class a *store* effect belongs to, or None."""
     if len(kinds) != 1:
@@ -56,23 +151,32 @@ def exception_class(body, site, kinds):
                         return "fold"
     # exhausted-block advance
     if field in ("cur_block_idx", "cur_block_offset"):
-        for T in all_tests(body):
-            if T.kind == "cmp" and T.op == "Ge":
-                pb = op_place(T.b)
-                if pb and pb["p"] and isinstance(pb["p"][-1], dict) and pb["p"][-1].get("n") == "used":
-                    src, _, _ = origins(body, T.a)
-                    if any(o.kind == "field" and o.what[1] == "cur_block_offset" for o in src) and body.edge_guards(T.true_edge, site.bb):
-                        st = site.node
-                        rv = st["rv"]
-                        if rv["k"] == "use":
-                            o = body.resolve_copy(rv["op"])
-                            if o.get("k") == "const" and o.get("val") == 0 and field == "cur_block_offset":
-                                return "advance"
-                            l = op_place(o)
-                            if l is not None and field == "cur_block_idx":
-                                d = body.def_rvalue(l["l"])
-                                if d and d[0] == "rv" and d[1]["k"] == "bin" and d[1]["op"] in ("AddWithOverflow", "Add") and const_of(body, d[1]["b"]) == 1:
-                                    return "advance"
+        for edge, off_op in end_guards(body):
+            # the offset compared must be the cursor's own (a load of cur_block_offset), not something
+            # computed from it: `offset + size of the entry just read >= used` says the block WILL be
+            # exhausted once that entry is consumed, which a peek does not do
+            reached = _is_cursor_offset_load(body, off_op)
+            if not reached and body.edge_guards(edge, site.bb) and guarded(body, site.bb, checkpoint_edges(body)):
+                # consuming read: `cursor offset + size of the entry just read >= used` - the entry is being
+                # delivered by this very call, so (idx + 1, 0) is the position right behind it
+                from .core.symexpr import expr as _e, strip_refs as _sr
+                ea = _sr(_e(body, off_op))
+                if ea[0] == "Add":
+                    osrc, _, _ = origins(body, off_op)
+                    if any(o.kind == "call" and o.what.endswith("block::Block::read") for o in osrc):
+                        reached = True
+            if reached and body.edge_guards(edge, site.bb):
+                st = site.node
+                rv = st["rv"]
+                if rv["k"] == "use":
+                    o = body.resolve_copy(rv["op"])
+                    if o.get("k") == "const" and o.get("val") == 0 and field == "cur_block_offset":
+                        return "advance"
+                    l = op_place(o)
+                    if l is not None and field == "cur_block_idx":
+                        d = body.def_rvalue(l["l"])
+                        if d and d[0] == "rv" and d[1]["k"] == "bin" and d[1]["op"] in ("AddWithOverflow", "Add") and const_of(body, d[1]["b"]) == 1:
+                            return "advance"
     return None
 
 
@@ -93,15 +197,11 @@ def mark_exception(facts, body, site, callee, stateful_ok):
         _IDEM["idem"] = idempotent_marks(facts)
     if not _IDEM["idem"]:
         return None
-    for T in all_tests(body):
-        if T.kind == "cmp" and T.op == "Ge":
-            pb = op_place(T.b)
-            if pb and pb["p"] and isinstance(pb["p"][-1], dict) and pb["p"][-1].get("n") == "used" and body.edge_guards(T.true_edge, site.bb):
-                osrc, _, _ = origins(body, T.a)
-                asrc, _, _ = origins(body, site.node["args"][0])
-                if any(o.kind == "field" and o.what == ("wal::runtime::reader::ColReaderInfo", "cur_block_offset") for o in osrc) and \
-                        any(o.kind == "field" and o.what[1] == "id" for o in asrc):
-                    return "exhausted-block mark (idempotent, cursor-justified)"
+    for edge, off_op in end_guards(body):
+        if body.edge_guards(edge, site.bb):
+            asrc, _, _ = origins(body, site.node["args"][0])
+            if _is_cursor_offset_load(body, off_op) and any(o.kind == "field" and o.what[1] == "id" for o in asrc):
+                return "exhausted-block mark (idempotent, cursor-justified)"
     return None
 
 
